@@ -5,7 +5,7 @@ Model: `PdfVerif.CIDFont` (hand model of cmapdb.py / pdffont.py / pdfdevice.py, 
 implementation by tools/harness/props/c07.py; literal tables regenerated into `Gen/CIDFont.lean`).
 Spec: `PdfVerif.CIDFontSpec`.  Only property theorems live here (helper lemmas: `Lemmas/CIDFont.lean`).
 -/
-import PdfVerif.Lemmas.CIDFont
+import PdfVerif.Lemmas.CIDFontGlue
 
 namespace PdfVerif.Props.C07
 open PdfVerif PdfVerif.CIDFont PdfVerif.CIDFontSpec PdfVerif.CIDFontLemmas
@@ -273,5 +273,137 @@ theorem glyph_placement (v : Bool) (fs : Rat) (w : Nat → Rat) (a b : List Nat)
 means `DW2[1]`, and without `DW2` the regenerated default −1000. -/
 theorem vertical_default (cid : Nat) : glyphWidthV [] none cid = -1000 ∧ glyphWidthV [] (some (800, -900)) cid = -900 := by
   constructor <;> simp [glyphWidthV, Gen.CIDFont.DW2_DEFAULT]
+
+/-! ## Round 6: ill-formed arrays, `PDFCIDFont.__init__` glue, cidchar / cidrange / codespace sections -/
+
+/-- `get_widths2` is total: on EVERY element list (ill-formed arrays included: stray lists, non-numbers,
+real-valued or reversed range ends, truncated groups) it returns a dictionary, never an exception.
+(`get_widths` is total by its type: `getWidths : List WElem → WMap`.) -/
+theorem widths2_total (seq : List WElem) : ∃ m, getWidths2 seq = .ok m :=
+  getWidths2Aux_total seq _
+
+/-- … hence every CID font has a width and a displacement for every cid, whatever `W`, `DW`, `W2`, `DW2` hold. -/
+theorem cidfont_metrics_total (v : Bool) (w : List WElem) (dw : Option WVal) (w2 : List WElem)
+    (dw2 : Option (List WVal)) (cid : Nat) :
+    (∃ r, cidCharWidth v w dw w2 dw2 cid = .ok r) ∧ ∃ d, cidCharDisp v w2 dw2 cid = .ok d := by
+  obtain ⟨m, hm⟩ := widths2_total w2
+  cases v <;> simp [cidCharWidth, cidCharDisp, hm]
+
+/-- The number a `DW` entry contributes: itself when it is a number, nothing otherwise. -/
+def dwNumber : Option WVal → Option Rat
+  | some (.num v) => some v
+  | _ => none
+
+/-- The pair a `DW2` entry contributes: a list of exactly two numbers, nothing otherwise. -/
+def dw2Pair : Option (List WVal) → Option (Rat × Rat)
+  | some [.num vy, .num w] => some (vy, w)
+  | _ => none
+
+theorem dw2Value_eq (d : Option (List WVal)) : dw2Value d = (dw2Pair d).getD Gen.CIDFont.DW2_DEFAULT := by
+  unfold dw2Value dw2Pair
+  split <;> simp
+
+/-- `PDFCIDFont.char_width` of a horizontal font, from the font dictionary: the latest `W` entry covering the cid,
+else `DW` when `DW` is a number, else 1000 — for every well-formed `W`, EVERY value of `DW` (absent, number, any other
+object), and independently of `W2` / `DW2`. -/
+theorem cidfont_width_spec (es : List WEntry) (dw : Option WVal) (w2 : List WElem) (dw2 : Option (List WVal))
+    (cid : Nat) : cidCharWidth false (renderW es) dw w2 dw2 cid = .ok (specWidth es (dwNumber dw) cid) := by
+  simp only [cidCharWidth, Bool.false_eq_true, if_false, widths_spec]
+  congr 1
+  unfold specWidth
+  cases (specWidthPairs es).reverse.lookup (cid : Int) with
+  | some w => rfl
+  | none =>
+    cases dw with
+    | none => simp [dwValue, dwNumber, Gen.CIDFont.DW_DEFAULT]
+    | some v => cases v <;> simp [dwValue, dwNumber, Gen.CIDFont.DW_DEFAULT]
+
+/-- The same for a vertical font: advance `w1y` and position vector come from the latest `W2` entry, else from `DW2`
+when that is a list of exactly two numbers, else from the regenerated default `[880 -1000]`; `W` / `DW` are not read. -/
+theorem cidfont_width2_spec (es : List W2Entry) (w : List WElem) (dw : Option WVal) (dw2 : Option (List WVal))
+    (cid : Nat) :
+    cidCharWidth true w dw (renderW2 es) dw2 cid = .ok (specWidthV es (dw2Pair dw2) cid) ∧
+    cidCharDisp true (renderW2 es) dw2 cid =
+      .ok (.vec (specDispV es (dw2Pair dw2) cid).1 (specDispV es (dw2Pair dw2) cid).2) := by
+  simp only [cidCharWidth, cidCharDisp, if_true, widths2_map_spec]
+  unfold glyphWidthV glyphDispV specWidthV specDispV
+  rw [lookup_toW2Map, dw2Value_eq]
+  cases (specWidth2Pairs es).reverse.lookup (cid : Int) with
+  | none => cases dw2Pair dw2 <;> simp [Gen.CIDFont.DW2_DEFAULT]
+  | some t => simp
+
+/-- The writing mode of the encoding CMap alone decides which arrays are read: a horizontal font ignores
+`W2` / `DW2` and has displacement 0, a vertical font ignores `W` / `DW`. -/
+theorem writing_mode_selects_arrays (w w' : List WElem) (dw dw' : Option WVal) (w2 w2' : List WElem)
+    (dw2 dw2' : Option (List WVal)) (cid : Nat) :
+    cidCharWidth false w dw w2 dw2 cid = cidCharWidth false w dw w2' dw2' cid ∧
+    cidCharWidth true w dw w2 dw2 cid = cidCharWidth true w' dw' w2 dw2 cid ∧
+    cidCharDisp false w2 dw2 cid = .ok .zero :=
+  ⟨rfl, rfl, rfl⟩
+
+/-- `cidcoding` (the key of the collection's CID → Unicode table): Registry and Ordering with surrounding white
+space removed, joined by `-`. -/
+theorem cidcoding_spec (a1 r b1 a2 o b2 : Bytes)
+    (hs : ∀ c ∈ a1 ++ b1 ++ a2 ++ b2, isPySpace c = true)
+    (hr : (∀ x, r.head? = some x → isPySpace x = false) ∧ ∀ x, r.getLast? = some x → isPySpace x = false)
+    (ho : (∀ x, o.head? = some x → isPySpace x = false) ∧ ∀ x, o.getLast? = some x → isPySpace x = false) :
+    cidCoding (some (a1 ++ r ++ b1)) (some (a2 ++ o ++ b2)) = r ++ [45] ++ o := by
+  simp only [cidCoding, Option.getD_some]
+  rw [pyStrip_pad a1 r b1 (fun c hc => hs c (by simp [hc])) (fun c hc => hs c (by simp [hc])) hr.1 hr.2,
+    pyStrip_pad a2 o b2 (fun c hc => hs c (by simp [hc])) (fun c hc => hs c (by simp [hc])) ho.1 ho.2]
+
+/-- A missing or ill-typed Registry / Ordering reads as `unknown`. -/
+theorem cidcoding_unknown : cidCoding none none = unknownBytes ++ [45] ++ unknownBytes := by decide
+
+/-- cidchar (handler level, any prior map): each `cid <code>` pair gives `cid ↦` the UTF-16BE text of the string. -/
+theorem cidchar_map (es : List (Int × Bytes)) (m : UMap) :
+    foldEntries cidcharEntry (chop2 (es.flatMap (fun e => [Tok.int e.1, Tok.str e.2]))) m
+      = .ok (putAll (es.map (fun e => (e.1, utf16Ignore e.2))) m) :=
+  cidchar_fold es m
+
+/-- cidrange (handler level): `<lo> <hi> cid` with codes of equal length that agree before their last four bytes
+gives `cid + i ↦` text of the code `lo + i` (carry form over the last `min 4 len` bytes), for every `i` up to
+`hi − lo`; no exception for any such entry (codes of any length, negative cids included). -/
+theorem cidrange_map (lo hi : Bytes) (cid : Int) (m : UMap) (hlen : lo.length = hi.length) (hne : lo ≠ [])
+    (hpre : dropLast4 lo = dropLast4 hi) :
+    cidrangeEntry m (Tok.str lo, Tok.str hi, Tok.int cid) = .ok (putAll
+      ((List.range (nunpack (takeLast 4 hi) + 1 - nunpack (takeLast 4 lo))).map
+        (fun i => (cid + ((i : Nat) : Int), utf16Ignore (incBE lo i)))) m) :=
+  cidrangeEntry_ok lo hi cid m hlen hne hpre
+
+/-- Codespace ranges — of one width or of several (`<00> <80> <8140> <9FFC> …`) — and notdef ranges have no effect
+on the parsed map: whatever operands stand between the keywords, the section leaves the map as it was and the
+operand stack empty. -/
+theorem codespace_ignored (ops : List Tok) (hops : ops.all notKw = true) (st : PState) (hc : st.inCmap = true) :
+    runToks (Tok.kw "begincodespacerange" :: ops ++ [Tok.kw "endcodespacerange"]) st = .ok { st with stack := [] } ∧
+    runToks (Tok.kw "beginnotdefrange" :: ops ++ [Tok.kw "endnotdefrange"]) st = .ok { st with stack := [] } := by
+  constructor
+  · rw [runToks_discard _ _ (by decide) (by decide) (by decide) (by decide) ops hops st]; simp [hc]
+  · rw [runToks_discard _ _ (by decide) (by decide) (by decide) (by decide) ops hops st]; simp [hc]
+
+/-- non-vacuity: an ill-formed W2 array (stray list, non-number, real range end, incomplete triple) still parses. -/
+example : (getWidths2 [.list [.num 1], .other, .num 1 true, .list [.num (-5), .other, .num 2, .num 7],
+    .num 3 true, .num (5 / 2) false, .num 1 true, .num 2 true, .num 3 true, .num 9 true]).toOption = some [] := by
+  decide +kernel
+
+/-- non-vacuity: ill-typed `DW` falls back to 1000, a numeric one is used, `W2`/`DW2` are irrelevant. -/
+example : (cidCharWidth false (renderW exampleW) (some .other) [.other] (some []) 3).toOption = some 1000 ∧
+    (cidCharWidth false (renderW exampleW) (some (.num 250)) [] none 3).toOption = some 250 ∧
+    (cidCharWidth false (renderW exampleW) none [] none 2).toOption = some 600 := by decide +kernel
+
+example : (cidCharWidth true [] none (renderW2 exampleW2) (some [.num 700, .num (-800), .num 1]) 3).toOption = some (-1000) ∧
+    (cidCharWidth true [] none (renderW2 exampleW2) (some [.num 700, .num (-800)]) 3).toOption = some (-800) ∧
+    (cidCharDisp true (renderW2 exampleW2) (some [.num 700, .other]) 3).toOption = some (.vec none 880) ∧
+    (cidCharDisp true (renderW2 exampleW2) none 2).toOption = some (.vec (some 300) 810) := by decide +kernel
+
+/-- non-vacuity: `" Adobe "` / `"\tJapan1\n"` ↦ `Adobe-Japan1`. -/
+example : cidCoding (some ([32] ++ [65, 100, 111, 98, 101] ++ [32])) (some ([9] ++ [74, 97, 112, 97, 110, 49] ++ [10]))
+    = [65, 100, 111, 98, 101, 45, 74, 97, 112, 97, 110, 49] := by decide
+
+/-- non-vacuity: a cidrange that carries out of the low byte, a cidchar pair, a two-width codespace section. -/
+example : (parseToUnicode [.kw "begincodespacerange", .str [0], .str [0x80], .str [0x81, 0x40], .str [0x9F, 0xFC],
+      .kw "endcodespacerange", .str [0x30, 0xFF], .str [0x31, 0x01], .int 7, .kw "endcidrange",
+      .int 3, .str [0x00, 0x41], .kw "endcidchar"]).toOption
+    = some [(3, [0x41]), (9, [0x3101]), (8, [0x3100]), (7, [0x30FF])] := by decide
 
 end PdfVerif.Props.C07
